@@ -705,9 +705,11 @@ fn expr_p13<'t>(
         st: &mut SymbolTable,
     ) -> ParseResult<'t, (Located<Expression>, Located<Expression>)> {
         let (input, _) = parse_token(Token::QuestionMark)(input)?;
-        let (input, left) = expr_p13(input, st)?;
+        // As in C++ the second operand is a full expression and the third an assignment expression
+        // So a ? b = c : d is valid and a ? b : c = d is a ? b : (c = d) - which is also how they are printed
+        let (input, left) = parse_expression_internal(input, st, Terminator::Standard)?;
         let (input, _) = parse_token(Token::Colon)(input)?;
-        let (input, right) = expr_p13(input, st)?;
+        let (input, right) = expr_p14(input, st)?;
         Ok((input, (left, right)))
     }
 
